@@ -654,7 +654,10 @@ impl<'a> Gen<'a> {
             }
             return DataSpec::Existing { set: s, data: d };
         }
-        let set = if m.datasets.iter().any(|s| s.live) && self.rng.chance(4, 5) {
+        let set = if self.rng.chance(1, 14) {
+            // no dataset named at all
+            SetRef::Unnamed
+        } else if m.datasets.iter().any(|s| s.live) && self.rng.chance(4, 5) {
             SetRef::Existing(Ref {
                 idx: self.set_ref(m).idx,
                 by: By::Id,
